@@ -2632,7 +2632,9 @@ class CaseExpr(ColExpr):
             val_ftypes.add(self.default_val.ftype(agg_is_window=agg_is_window))
 
         for cond, val in self.cases:
-            cond.ftype(agg_is_window=agg_is_window)
+            # a window / aggregation function in a condition counts as well
+            if cond.dtype() is not None and not types.is_const(cond.dtype()):
+                val_ftypes.add(cond.ftype(agg_is_window=agg_is_window))
             if val.dtype() is not None and not types.is_const(val.dtype()):
                 val_ftypes.add(val.ftype(agg_is_window=agg_is_window))
 
